@@ -131,6 +131,6 @@ def run(ctx):
     sets = [(1.5, 2.48), (1.0, 1.0)] + ([(0.34, 0.996), (25.0, 40.0), (3.7e-3, 1e3), (7.0, 0.01), (1.0, 300.0), (123.4, 5.6), (0.5, 0.5)] if thorough else [])
     for dc, ec in sets:
         w = Walker(ctx, g, UnitsAdapter(dc, ec, ctx.seed), 'replay.Units.dc%g.ec%g' % (dc, ec))
-        ne = w.cover_edges()
+        ne = w.cover_edges(stutter=True)
         npaths, complete = w.all_paths(3 if thorough else 2)
         ctx.stage('replay.Units', dc=dc, ec=ec, graph_states=len(g.state), graph_edges=g.n_edges, edges_replayed=ne, paths=npaths, real_calls=w.steps)
